@@ -24,6 +24,12 @@ mod c04;
 mod c06;
 mod c08;
 mod c10;
+mod c14;
+mod c16;
+mod expr;
+mod c17;
+mod c19;
+mod c20;
 
 use std::io::Write;
 use wire::{Rng, Toks};
@@ -48,10 +54,10 @@ type GenFn = fn(&mut Rng, Tier, &mut Vec<String>);
 type ExecFn = fn(&str, &mut Toks, &mut Ctx) -> Option<String>;
 
 fn gens() -> Vec<(&'static str, GenFn)> {
-    vec![("C13", c13::gen as GenFn), ("C03", c03::gen as GenFn), ("C01", c01::gen as GenFn), ("C02", c01::gen_c02 as GenFn), ("C15", c15::gen as GenFn), ("C11", c11::gen as GenFn), ("C12", c11::gen_c12 as GenFn), ("C05", c05::gen as GenFn), ("C04", c04::gen as GenFn), ("C06", c06::gen as GenFn), ("C07", c06::gen_c07 as GenFn), ("C08", c08::gen as GenFn), ("C09", c08::gen_c09 as GenFn), ("C10", c10::gen as GenFn)]
+    vec![("C13", c13::gen as GenFn), ("C03", c03::gen as GenFn), ("C01", c01::gen as GenFn), ("C02", c01::gen_c02 as GenFn), ("C15", c15::gen as GenFn), ("C11", c11::gen as GenFn), ("C12", c11::gen_c12 as GenFn), ("C05", c05::gen as GenFn), ("C04", c04::gen as GenFn), ("C06", c06::gen as GenFn), ("C07", c06::gen_c07 as GenFn), ("C08", c08::gen as GenFn), ("C09", c08::gen_c09 as GenFn), ("C10", c10::gen as GenFn), ("C14", c14::gen as GenFn), ("C16", c16::gen as GenFn), ("C17", c17::gen as GenFn), ("C18", c17::gen_c18 as GenFn), ("C19", c19::gen as GenFn), ("C20", c20::gen as GenFn)]
 }
 fn execs() -> Vec<ExecFn> {
-    vec![c13::exec as ExecFn, c03::exec as ExecFn, c01::exec as ExecFn, c15::exec as ExecFn, c11::exec as ExecFn, c05::exec as ExecFn, c04::exec as ExecFn, c06::exec as ExecFn, c08::exec as ExecFn, c10::exec as ExecFn]
+    vec![c13::exec as ExecFn, c03::exec as ExecFn, c01::exec as ExecFn, c15::exec as ExecFn, c11::exec as ExecFn, c05::exec as ExecFn, c04::exec as ExecFn, c06::exec as ExecFn, c08::exec as ExecFn, c10::exec as ExecFn, c14::exec as ExecFn, c16::exec as ExecFn, c17::exec as ExecFn, c19::exec as ExecFn, c20::exec as ExecFn]
 }
 
 fn main() {
